@@ -143,6 +143,34 @@ def build(chk):
     # ---- setExtrapolate establishes the invariant (continuity at the four range ends)
     set_extrapolate(chk, all_sums)
     alpha(chk)
+    crosschecks(chk, all_sums)
+
+
+def crosschecks(chk, all_sums):
+    """translation validation of the interpreter on the six leaf EOS methods (real code under CPython vs the summaries)"""
+    from wgvc.crosscheck import Cross, poly_chain, to_native_poly, to_callable
+    for ph in PHASES:
+        for name in ("p", "dp", "ddp"):
+            def functions(rnd, ph=ph):
+                xs, fam = poly_chain(rnd, [f"f{ph}", f"df{ph}", f"ddf{ph}"], nvars=1, deg=4)
+                return ({k: to_native_poly(xs, v) for k, v in fam.items()}, {k: to_callable(xs, v) for k, v in fam.items()})
+
+            def sample(rnd, ph=ph):
+                lo = rnd.uniform(0.5, 1.0)
+                hi = lo + rnd.uniform(0.2, 1.0)
+                env = {"T": rnd.uniform(0.2, 2.5), f"self.TMin{ph}T": lo, f"self.TMax{ph}T": hi}
+                for e in ENDS:
+                    env[f"self.mu{e}{ph}T"] = rnd.uniform(3.0, 5.0)
+                    env[f"self.a{e}{ph}T"] = rnd.uniform(0.5, 2.0)
+                    env[f"self.epsilon{e}{ph}T"] = rnd.uniform(-1.0, 1.0)
+                return env
+
+            def scenario(env, ph=ph, name=name):
+                attrs = {k.split(".", 1)[1]: v for k, v in env.items() if k.startswith("self.")}
+                attrs[f"freeEnergy{ph}"] = {"__stub__": "freeenergy", "f": f"f{ph}", "df": f"df{ph}", "ddf": f"ddf{ph}"}
+                return {"module": "WallGo.thermodynamics", "method": f"{name}{ph}T", "args": [env["T"]],
+                        "self": {"__stub__": "real", "module": "WallGo.thermodynamics", "class": "Thermodynamics", "attrs": attrs}}
+            chk.cross(Cross(f"Thermodynamics.{name}{ph}T", all_sums[ph][name], sample, scenario, functions=functions))
 
 
 def invariant(S, ph):
